@@ -235,18 +235,21 @@ def invalid_classes(ctx):
         cfgmod.config['MAX_VBS_RECORD_LENGTH'] = saved
     # each single bit
     for bit in range(2, 129):
-        raw = (1 << 127) | (1 << (128 - bit))
-        data = (60).to_bytes(4, 'big') + b'1644' + raw.to_bytes(16, 'big') + b'0' * 40
-        n += 1
-        configured = str(bit) in PACKAGED
-        if configured:
-            info = inspect(data)
-            if info.get('isValidIPM') is not True:
-                ctx.report('configured-bit-reported-invalid', {'kind': 'bit', 'bit': bit}, f'bit {bit} is configured but the file is reported invalid: {info.get("reason")!r}')
-        else:
-            res = check_invalid(data, f'first bitmap uses unconfigured element {bit}')
-            if res:
-                ctx.report(res[0] + ':bit', {'kind': 'bit', 'bit': bit}, res[1])
+        for bit1 in (1, 0):
+            raw = (bit1 << 127) | (1 << (128 - bit))
+            data = (60).to_bytes(4, 'big') + b'1644' + raw.to_bytes(16, 'big') + b'0' * 40
+            n += 1
+            configured = str(bit) in PACKAGED
+            if configured:
+                if not bit1:
+                    continue   # what a bitmap with bit 1 clear and only configured elements is, no statement says
+                info = inspect(data)
+                if info.get('isValidIPM') is not True:
+                    ctx.report('configured-bit-reported-invalid', {'kind': 'bit', 'bit': bit, 'bit1': bit1}, f'bit {bit} is configured but the file is reported invalid: {info.get("reason")!r}')
+            else:
+                res = check_invalid(data, f'first bitmap uses unconfigured element {bit} (bit 1 {"set" if bit1 else "clear"})')
+                if res:
+                    ctx.report(res[0] + ':bit', {'kind': 'bit', 'bit': bit, 'bit1': bit1}, res[1])
     ctx.bulk(n, nontrivial_distinct=n, label='invalid-classes')
     ctx.enumerated('every truncation length 0..23 (invalid) and 24 (valid); first length max-1/max/max+1/2^31/2^32-1 under three maxima; each single bit 2..128')
     ctx.sample({'invalid_class': 'first bitmap uses element 128 (no configuration)', 'expected': 'isValidIPM false with a reason'})
@@ -310,7 +313,7 @@ def replay(case):
             cfgmod.config['MAX_VBS_RECORD_LENGTH'] = saved
     if k == 'bit':
         bit = case['bit']
-        raw = (1 << 127) | (1 << (128 - bit))
+        raw = (case.get('bit1', 1) << 127) | (1 << (128 - bit))
         data = (60).to_bytes(4, 'big') + b'1644' + raw.to_bytes(16, 'big') + b'0' * 40
         if str(bit) in PACKAGED:
             info = inspect(data)
